@@ -54,17 +54,47 @@ theorem retry_success_owns_file (ft : CF) (env : Env) (T fuel t0 : Nat) (s : LSt
   have := List.all_eq_true.mp (gen_retry_outcomes_good ft) _ hm
   simpa [goodOutcome] using this
 
-/-- with a context that ends (at any instant `T`) the loop returns: after at most T + 1 rounds -/
-theorem retry_returns (ft : CF) (env : Env) (T t0 : Nat) :
+/-- with a context that ends (at any instant `T`) the loop returns, for every retry delay — also 0: then the
+    context and the timer can be ready together and Go's select may take the timer, so the claim needs (and only
+    needs) that from some instant `N` on such a tie is not decided for the timer; after at most T + N + 1 rounds -/
+theorem retry_returns (ft : CF) (env : Env) (T N t0 : Nat) (hf : Fair env N) :
     ∃ fuel, (run env T (tryOf ft) retryLoop fuel t0).isSome = true :=
-  run_returns env T (tryOf ft) retryLoop (by decide) t0
+  run_returns env T N hf (tryOf ft) retryLoop (by decide) t0
+
+/-- with a positive retry delay nothing has to be assumed -/
+theorem retry_returns_positive_delay (ft : CF) (env : Env) (T t0 : Nat) (hd : ∀ t, 0 < (env t).delay) :
+    ∃ fuel, (run env T (tryOf ft) retryLoop fuel t0).isSome = true :=
+  retry_returns ft env T 0 t0 (fun t _ => Or.inr (hd t))
+
+/-- delay 0, the table held by somebody else for ever, a select that always takes the timer when both are ready -/
+def spinEnv : Env := fun _ => ⟨true, false, false, false, 0, true⟩
+
+theorem spin_round (t : Nat) (l : Option TRes) :
+    runStmts spinEnv 1 (tryOf .lock) retryLoop.body ⟨t, .none, l⟩ = .cont ⟨t + 4, .none, some .soft⟩ := by
+  simp [retryLoop, tryOf, tryCreateLockFile, runStmts, runTry, evalCond, isOk, isHard, selectReturns, spinEnv, closeAll,
+    Mine.none]
+
+theorem spin_loop : ∀ (n t : Nat) (l : Option TRes),
+    runLoop spinEnv 1 (tryOf .lock) retryLoop.body n ⟨t, .none, l⟩ = none
+  | 0, _, _ => rfl
+  | n + 1, t, l => by
+    simp only [runLoop, spin_round]
+    exact spin_loop n (t + 4) (some .soft)
+
+/-- and the assumption is needed: with delay 0 and a select that always takes the timer, a writer that finds the
+    table held never returns although its context is over from instant 1 on -/
+theorem delay_zero_unfair_select_spins (fuel : Nat) : run spinEnv 1 (tryOf .lock) retryLoop fuel 0 = none := by
+  have hpre : runStmts spinEnv 1 (tryOf .lock) retryLoop.pre ⟨0, .none, none⟩ = .cont ⟨1, .none, none⟩ := by
+    simp [retryLoop, runStmts, evalCond]
+  simp only [run, hpre]
+  exact spin_loop fuel 1 none
 
 /-! non-vacuity: a free table with the context ending INSIDE the successful attempt (instant 2 of 0..3) is
     success; a table held by somebody else for ever is an error; and a loop that looks at the context between the
     attempt and the test of its result — the order matters — does leave a lock file behind at that very instant -/
 
-def freeEnv : Env := fun _ => ⟨false, false, false, false, 0⟩
-def busyEnv : Env := fun _ => ⟨true, false, false, false, 0⟩
+def freeEnv : Env := fun _ => ⟨false, false, false, false, 0, false⟩
+def busyEnv : Env := fun _ => ⟨true, false, false, false, 0, false⟩
 
 example : (run freeEnv 2 (tryOf .lock) retryLoop 3 0).map (fun p => (p.1, p.2.mine, p.2.t)) =
     some (.fileNil, .only .lock, 6) := by decide
